@@ -195,6 +195,22 @@ def check(ctx):
     check_table(ctx)
     check_functor(ctx)
     check_daggers(ctx)
+    ctx.rule("R16.4", "gate2zx finds a gate in its table by equality and hash: equal gates (e.g. the result of H.dagger()) hash equal (C03)")
+    m = ctx.model
+    for c in sorted(m.classes.values(), key=lambda c: c.q):
+        if c.mod not in ("discopy.quantum.gates", "discopy.quantum.circuit", ZX) or "__repr__" not in c.methods or "__hash__" in c.methods:
+            continue
+        h = m.lookup(c, "__hash__")
+        if not (h and isinstance(h[1], ast.FunctionDef) and "repr" in ast.unparse(h[1])):
+            continue
+        rf = c.methods["__repr__"][0]
+        sr = rf.args.args[0].arg
+        ident = [ast.unparse(n) for n in ast.walk(rf) if isinstance(n, ast.Compare) and any(isinstance(o, (ast.Is, ast.IsNot)) for o in n.ops)
+                 and any(isinstance(x, ast.Name) and x.id == sr for x in ast.walk(n)) and not all(isinstance(k, ast.Constant) for k in n.comparators)]
+        ctx.ob("R16.4", c.q + ".__repr__:no-identity", not ident, found=ident or "the repr (of which the inherited hash is the hash) depends on values only", required="the hash of a gate is the hash of its repr: the repr "
+               "must not depend on which object it is (`self is gate`), or an equal gate built afresh (H.dagger()) is not found in the table", mod=c.mod, node=rf, sig="repr-identity", trivial=True)
+    ctx.depend("R16.4", "C03", "gates are looked up in the translation table by == and hash: a fresh but equal gate must be found", rules={"R03.1", "R03.2"},
+               constructs=["discopy.quantum.gates.QuantumGate", "discopy.quantum.circuit.Box", "discopy.rigid.Box", "discopy.cat.Box", "discopy.monoidal.Box"], mod="discopy.quantum.gates")
     ctx.floor("R16.1", 14)
     ctx.floor("R16.3", 5)
     ctx.not_decided += ["composite circuits (follow from C04 functoriality and C09)", "the single overall scalar is not tracked"]
